@@ -18,7 +18,9 @@ INVALID = ['unknown_name', 'foreign_block', 'event_to_cblock', 'filter_wrong_kin
            'not_two_inputs', 'override_group', 'override_empty_group', 'func_mismatch', 'duplicate_name', 'bad_shortcut',
            'connect_twice', 'unknown_event_dest', 'reserved_name', 'unknown_event_dest_ignored',
            # the same name referenced before by something that accepts any kind of block
-           'event_to_cblock_after_ref', 'filter_wrong_kind_after_ref']
+           'event_to_cblock_after_ref', 'filter_wrong_kind_after_ref',
+           # references by name created between an explicit finalize() and the start
+           'late_unknown_event_dest', 'late_event_to_cblock']
 
 
 def models(tier, seed):
@@ -89,6 +91,8 @@ def stimuli(tier, seed, ctx):
         for _ in range(3 if tier == 'quick' else 30):
             s = _rand_script(rnd)
             s['mode'] = rnd.choice(['finalize_then_start', 'start'])
+            if inv.startswith('late_'):
+                s['mode'] = 'finalize_then_start'
             s['invalid'] = inv
             out.append(s)
     return out
@@ -150,7 +154,8 @@ def execute(stim):
                     kw[inp['iname']] = refs[0]
                 else:
                     # a group is any sequence that is not a string
-                    form = [list, tuple, collections.deque, collections.UserList][(i + 3 * len(refs)) % 4]
+                    # (iterators are deprecated as groups, but accepted)
+                    form = [list, tuple, collections.deque, collections.UserList, iter][(i + 3 * len(refs)) % 5]
                     kw[inp['iname']] = form(refs)
             blks[i].connect(*args, **kw)
         probe_dest = edzed.Input('evsrc', initdef=0)
@@ -368,6 +373,15 @@ def execute(stim):
                 if inv == 'none':
                     observe(circuit)
                     frozen_checks(circuit)
+            late = None
+            if mode == 'finalize_then_start':
+                # events created after the explicit finalize(): resolved (and checked) at the start
+                if inv == 'late_unknown_event_dest':
+                    edzed.Event('nosuchdest_late', 'put')
+                elif inv == 'late_event_to_cblock':
+                    edzed.Event('spare', 'put')
+                elif inv == 'none':
+                    late = edzed.Event(name(1), 'put')
             if mode in ('start', 'finalize_then_start'):
                 task = asyncio.create_task(circuit.run_forever())
                 try:
@@ -381,6 +395,13 @@ def execute(stim):
                         observe(circuit)
                     else:
                         lines.append({'ev': 'started'})
+                    if late is not None:
+                        try:
+                            okl = late.dest is circuit.findblock(name(1))
+                        except Exception:
+                            okl = False
+                        if not okl:
+                            lines.append({'ev': 'late_event_unresolved'})
                     frozen_checks(circuit)
                 try:
                     await circuit.shutdown()
